@@ -28,7 +28,8 @@ BUDGET = {"quick": (16, 200), "thorough": (16, 4000)}
 def _strategy(draw):
     mixed = draw(st.integers(0, 2)) == 0
     spec = draw(gp.case(max_res=7, link_bias=True, routes=("json",), min_res=2, mixed_nrexcl=mixed,
-                        f22_safe=True, min_blocks=2 if mixed else 1))
+                        f22_safe=True, min_blocks=2 if mixed else 1,
+                        removal_bias=draw(st.integers(0, 5)) == 0))
     n = len(spec["graph"]["nodes"])
     ne = len(spec["graph"]["edges"])
     t = {}
